@@ -363,4 +363,441 @@ def untrustedHeaderCheck (ct : ChainType) (now : Int) (ftl : Nat) (sizeOk : Bool
   if gw > mulW (maxBlockWeight ct) (addW h.height 1) then .error .CorruptedData
   else .ok ()
 
+/-! ### the node around `validate_header`: known headers, header batches, head updates
+
+Transliteration of `chain/src/pipe.rs` — `check_known`, `check_known_head`, `check_known_store`,
+`process_block_header` (with its "already known" short-cuts), `process_block_headers` (the batch
+path of header sync, ending with the comparison of the **last** header with `header_head`),
+`rewind_and_apply_header_fork`, `process_block` (header stages; the body stage is an input) — of
+`chain/src/chain.rs::{process_block_header, sync_block_headers, process_block_single, is_known,
+check_orphan}` (batch committed on `Ok`, dropped on `Err`), and of the parts of
+`txhashset::{header_extending, HeaderExtension}` they use.
+
+A `BlockHeader`'s hash covers only the proof (`Writeable for BlockHeader` in hash mode writes
+`pow.proof` alone), so two headers with the same proof and different fields have the same hash:
+the header store (`save_block_header`, keyed by hash) then holds whichever was written last. -/
+
+/-- `chain::types::Tip` -/
+structure Tip where
+  /-- `last_block_h` -/
+  hash : Nat
+  /-- `prev_block_h` -/
+  prevHash : Nat
+  height : Nat
+  totalDiff : Nat
+  deriving DecidableEq, Repr
+
+/-- A `BlockHeader` as delivered: its hash (of the proof nonces only), `prev_hash`, the fields the
+rules read, `rest` = a digest of every other field (`prev_root`, `nonce`, roots, offset: only ever
+compared for equality), and the answers of the two oracles the model does not compute for THIS
+content: the cycle verifier (`powOk`, C05) and `prev_root` = root of the header MMR on the path to
+its parent (`rootOk`, C07). -/
+structure FHdr where
+  hash : Nat
+  prevHash : Nat
+  h : Hdr
+  rest : Nat
+  powOk : Bool
+  rootOk : Bool
+  deriving DecidableEq, Repr
+
+/-- `Tip::from_header` -/
+def Tip.ofHdr (f : FHdr) : Tip := ⟨f.hash, f.prevHash, f.h.height, f.h.totalDiff⟩
+
+/-- the part of a `Chain` the header pipeline reads and writes -/
+structure HNode where
+  ct : ChainType
+  /-- header store (`save_block_header`): newest binding first, lookup = first match on the hash -/
+  hdrs : List FHdr
+  /-- hashes with a full block in the store (`block_exists`) -/
+  blocks : List Nat
+  /-- body head -/
+  head : Tip
+  headerHead : Tip
+  /-- header MMR: the header hash at each height, genesis first -/
+  hmmr : List Nat
+  deriving Repr
+
+/-- `batch.get_block_header(hash)` -/
+def getHdr (s : List FHdr) (k : Nat) : Option FHdr := s.find? (fun f => f.hash == k)
+
+/-- `store::DifficultyIter::from_batch(start, batch)`, consumed lazily: `next_difficulty` reads at
+most `DMA_WINDOW + 1` entries (`difficulty_data_to_vector` takes that many, WTEMA two), which is
+the fuel every caller passes. -/
+def windowFrom (s : List FHdr) : Nat → Nat → List HDI
+  | 0, _ => []
+  | fuel+1, start =>
+    match getHdr s start with
+    | none => []
+    | some f =>
+      let prevTotal := match getHdr s f.prevHash with
+        | some p => p.h.totalDiff
+        | none => 0
+      { ts := tsU64 f.h.ts, diff := subW f.h.totalDiff prevTotal, scaling := f.h.secondaryScaling,
+        isSec := isSecondary f.h.edgeBits } :: windowFrom s fuel f.prevHash
+
+/-- what `validate_header(header, ctx)` reads when the batch's view of the header store is `s`
+(the harness' chains have an empty denylist) -/
+def ctxFor (ct : ChainType) (skip : Bool) (s : List FHdr) (f : FHdr) : Ctx :=
+  { ct := ct, denied := false, prev := (getHdr s f.prevHash).map (·.h),
+    window := windowFrom s (DMA_WINDOW + 1) f.prevHash, skipPow := skip, powOk := f.powOk }
+
+/-- errors of the node-level entry points: a `validate_header` error, `Unfit` ("already known"),
+`OldBlock`, `Other` (header MMR out of step with the store), the body stage of `process_block`,
+and `Hang` for a `while` loop that would not terminate (cyclic `prev_hash` links in the store) -/
+inductive NErr
+  | hdr (e : Err) | Unfit | OldBlock | Other | Body | Hang
+  deriving DecidableEq, Repr
+
+def NErr.name : NErr → String
+  | .hdr e => e.name | .Unfit => "Unfit" | .OldBlock => "OldBlock" | .Other => "Other"
+  | .Body => "Body" | .Hang => "hang"
+
+/-- the loop of `process_block_headers`:
+`for header in headers { validate_header(header, ctx)?; add_block_header(header, &mut ctx.batch)?; }`
+— no "already known" check: a header whose hash is stored is validated like any other and, if it
+passes, overwrites the stored one.  Returns the batch's view of the header store. -/
+def validateLoop (ct : ChainType) (skip : Bool) : List FHdr → List FHdr → Except Err (List FHdr)
+  | s, [] => .ok s
+  | s, f :: fs =>
+    match validateHeader (ctxFor ct skip s f) f.h with
+    | .error e => .error e
+    | .ok () => validateLoop ct skip (f :: s) fs
+
+/-- `HeaderExtension`: its `head` and the MMR's leaves (header hash at each height) -/
+structure HExt where
+  head : Tip
+  mmr : List Nat
+  deriving Repr
+
+/-- `header_extending`: the extension's head is the header of the MMR's last leaf **read through
+the batch** (`Tip::default()` for an empty MMR); `none`: that header is not in the store -/
+def extInit (s : List FHdr) (mmr : List Nat) : Option HExt :=
+  match mmr.getLast? with
+  | none => some ⟨⟨0, 0, 0, MIN_DMA_DIFFICULTY⟩, mmr⟩
+  | some k =>
+    match getHdr s k with
+    | none => none
+    | some f => some ⟨Tip.ofHdr f, mmr⟩
+
+/-- `HeaderExtension::is_on_current_chain(t, batch)`; `none`: `Err` (`Error::Other` / store) -/
+def HExt.onChain (e : HExt) (s : List FHdr) (hash height : Nat) : Option Bool :=
+  if height > e.head.height then some false else
+  match e.mmr[height]? with
+  | none => none
+  | some x =>
+    match getHdr s x with
+    | none => none
+    | some g => some (g.hash == hash)
+
+/-- the `while current.height > 0 && !ext.is_on_current_chain(&current, batch)?` loop of
+`rewind_and_apply_header_fork`: returns the fork point and the fork hashes, oldest first -/
+def forkWalk (s : List FHdr) (e : HExt) : Nat → FHdr → List Nat → Except NErr (FHdr × List Nat)
+  | 0, _, _ => .error .Hang
+  | fuel+1, cur, acc =>
+    if cur.h.height = 0 then .ok (cur, acc) else
+    match e.onChain s cur.hash cur.h.height with
+    | none => .error .Other
+    | some true => .ok (cur, acc)
+    | some false =>
+      match getHdr s cur.prevHash with
+      | none => .error (.hdr .Orphan)
+      | some p => forkWalk s e fuel p (cur.hash :: acc)
+
+/-- `HeaderExtension::validate_root(header)` then `apply_header(header)` -/
+def HExt.validateApply (e : HExt) (f : FHdr) : Except NErr HExt :=
+  if f.h.height ≠ 0 ∧ f.rootOk = false then .error (.hdr .InvalidRoot)
+  else .ok { head := Tip.ofHdr f, mmr := e.mmr ++ [f.hash] }
+
+/-- `for h in fork_hashes { header = batch.get_block_header(&h)?; denylist; validate_root; apply_header }` -/
+def reapply (s : List FHdr) : HExt → List Nat → Except NErr HExt
+  | e, [] => .ok e
+  | e, k :: ks =>
+    match getHdr s k with
+    | none => .error (.hdr .Orphan)
+    | some f =>
+      match e.validateApply f with
+      | .error err => .error err
+      | .ok e' => reapply s e' ks
+
+/-- `HeaderExtension::rewind(header)` -/
+def HExt.rewind (e : HExt) (f : FHdr) : HExt :=
+  { head := Tip.ofHdr f, mmr := e.mmr.take (f.h.height + 1) }
+
+/-- `pipe::rewind_and_apply_header_fork(header, ext, batch, …)` -/
+def rewindAndApplyHeaderFork (s : List FHdr) (e : HExt) (f : FHdr) : Except NErr HExt :=
+  match forkWalk s e (s.length + 1) f [] with
+  | .error err => .error err
+  | .ok (forked, fork) => reapply s (e.rewind forked) fork
+
+/-- `pipe::process_block_headers(headers, sync_head, ctx)` followed by `ctx.batch.commit()`
+(`Chain::sync_block_headers`); on `Err` the batch is dropped and the MMR changes discarded, so
+nothing changes.  The Boolean is "the returned sync head is `Some(last_header)`". -/
+def processBlockHeaders (n : HNode) (skip : Bool) (syncHead : Tip) (batch : List FHdr) :
+    Except NErr (HNode × Bool) :=
+  match batch.getLast? with
+  | none => .ok (n, false)
+  | some last =>
+    match validateLoop n.ct skip n.hdrs batch with
+    | .error e => .error (.hdr e)
+    | .ok s =>
+      match extInit s n.hmmr with
+      | none => .error (.hdr .Orphan)
+      | some e0 =>
+        match rewindAndApplyHeaderFork s e0 last with
+        | .error e => .error e
+        | .ok e1 =>
+          match e1.onChain s syncHead.hash syncHead.height with
+          | none => .error .Other
+          | some on =>
+            let some_ := !on || decide (last.h.totalDiff > syncHead.totalDiff)
+            -- `if has_more_work(last_header, &head) { update_header_head } else { ext.force_rollback() }`
+            -- (the outer batch with the added headers is committed in both cases)
+            if last.h.totalDiff > n.headerHead.totalDiff then
+              .ok ({ n with hdrs := s, headerHead := Tip.ofHdr last, hmmr := e1.mmr }, some_)
+            else .ok ({ n with hdrs := s }, some_)
+
+/-- the node after `Chain::sync_block_headers` (unchanged on `Err`) -/
+def syncStep (n : HNode) (skip : Bool) (syncHead : Tip) (batch : List FHdr) : HNode :=
+  match processBlockHeaders n skip syncHead batch with
+  | .ok (n', _) => n'
+  | .error _ => n
+
+/-- `pipe::check_known(header, head)` with `check_known_head` / `check_known_store` -/
+def checkKnown (n : HNode) (f : FHdr) : Except NErr Unit :=
+  if f.h.totalDiff ≤ n.head.totalDiff then
+    if f.hash = n.head.hash ∨ f.hash = n.head.prevHash then .error .Unfit
+    else if n.blocks.contains f.hash then
+      (if f.h.height < satSub n.head.height 50 then .error .OldBlock else .error .Unfit)
+    else .ok ()
+  else .ok ()
+
+/-- the part of `pipe::process_block_header` after the short-cuts: `validate_header`, the header
+extension (`rewind_and_apply_header_fork(&prev_header, …)`, `validate_root`, `apply_header`,
+rolled back unless the header has more work than `header_head`), `add_block_header`,
+`update_header_head` -/
+def pbhApply (n : HNode) (skip : Bool) (f prev : FHdr) : Except NErr HNode :=
+  match validateHeader (ctxFor n.ct skip n.hdrs f) f.h with
+  | .error e => .error (.hdr e)
+  | .ok () =>
+    match extInit n.hdrs n.hmmr with
+    | none => .error (.hdr .Orphan)
+    | some e0 =>
+      match rewindAndApplyHeaderFork n.hdrs e0 prev with
+      | .error e => .error e
+      | .ok e1 =>
+        match e1.validateApply f with
+        | .error e => .error e
+        | .ok e2 =>
+          if f.h.totalDiff > n.headerHead.totalDiff then
+            .ok { n with hdrs := f :: n.hdrs, headerHead := Tip.ofHdr f, hmmr := e2.mmr }
+          else .ok { n with hdrs := f :: n.hdrs }
+
+/-- `pipe::process_block_header(header, ctx)` followed by the commit of
+`Chain::process_block_header`.  The two short-cuts return `Ok` **without validating**: a header
+"already known" to the body chain, and a header whose hash is in the header store with no more
+work than `header_head` (whatever the delivered copy's other fields say). -/
+def nodeProcessBlockHeader (n : HNode) (skip : Bool) (f : FHdr) : Except NErr HNode :=
+  match checkKnown n f with
+  | .error _ => .ok n
+  | .ok () =>
+    match getHdr n.hdrs f.prevHash with
+    | none => .error (.hdr .Orphan)
+    | some prev =>
+      -- `if let Ok(existing) = get_block_header(&header.hash()) { if !has_more_work(&existing, &header_head) { return Ok(()) } }`
+      match getHdr n.hdrs f.hash with
+      | some existing =>
+        if existing.h.totalDiff > n.headerHead.totalDiff then pbhApply n skip f prev else .ok n
+      | none => pbhApply n skip f prev
+
+/-- `Chain::process_block_single(b, opts)`: the header through `process_block_header` (its own
+committed batch), `is_known`, `check_orphan`, then `pipe::process_block` in a second batch
+(dropped on `Err`): `check_known`, `validate_pow_only`, the previous header,
+`process_block_header` again, and the body stages (`validate_block`, the txhashset extension),
+which are the input `bodyOk`.  Returns the node afterwards and the result. -/
+def nodeProcessBlock (n : HNode) (skip : Bool) (f : FHdr) (bodyOk : Bool) : HNode × Except NErr Unit :=
+  match nodeProcessBlockHeader n skip f with
+  | .error e => (n, .error e)
+  | .ok n1 =>
+    -- `Chain::is_known`
+    if n1.head.hash = f.hash then (n1, .error .Unfit) else
+    if f.h.totalDiff ≤ n1.head.totalDiff ∧ n1.blocks.contains f.hash then (n1, .error .Unfit) else
+    -- `Chain::check_orphan`
+    if ¬ (f.prevHash = n1.head.hash ∨ n1.blocks.contains f.prevHash) then (n1, .error (.hdr .Orphan)) else
+    -- `pipe::process_block`
+    match checkKnown n1 f with
+    | .error e => (n1, .error e)
+    | .ok () =>
+      if !skip && (!isPrimary n1.ct f.h.edgeBits && !isSecondary f.h.edgeBits) then (n1, .error (.hdr .LowEdgebits)) else
+      if !skip && !f.powOk then (n1, .error (.hdr .InvalidPow)) else
+      match getHdr n1.hdrs f.prevHash with
+      | none => (n1, .error (.hdr .Orphan))
+      | some _ =>
+        match nodeProcessBlockHeader n1 skip f with
+        | .error e => (n1, .error e)
+        | .ok n2 =>
+          if !bodyOk then (n1, .error .Body) else
+          let n3 := { n2 with blocks := f.hash :: n2.blocks }
+          if f.h.totalDiff > n1.head.totalDiff then ({ n3 with head := Tip.ofHdr f }, .ok ())
+          else (n3, .ok ())
+
+/-- a node that knows only its genesis -/
+def HNode.genesis (ct : ChainType) (g : FHdr) : HNode :=
+  { ct := ct, hdrs := [g], blocks := [g.hash], head := Tip.ofHdr g, headerHead := Tip.ofHdr g,
+    hmmr := [g.hash] }
+
+/-! ### `global.rs`: thread-local parameters with a global fallback
+
+Chain type, accept-fee base, future time limit and the NRD flag live in a `thread_local!`
+`Cell<Option<_>>` each, with a process-wide `OneTime` behind it.  A getter returns the local value
+if set, else the global one (else a default, where there is one) and **caches** what it resolved
+in the parameter's own thread-local cell.  Values are `Nat` (chain type: 0 Mainnet, 1 Testnet,
+2 AutomatedTesting, 3 UserTesting; flag: 0/1). -/
+
+inductive Param
+  | chainType | feeBase | ftl | nrd
+  deriving DecidableEq, Repr
+
+/-- `loc`: the four thread-local cells of the running thread; `glob`: the four `OneTime`s -/
+structure PStore where
+  loc : Param → Option Nat
+  glob : Param → Option Nat
+
+def PStore.empty : PStore := ⟨fun _ => none, fun _ => none⟩
+
+/-- `set_local_*` -/
+def PStore.setLocal (s : PStore) (p : Param) (v : Nat) : PStore :=
+  { s with loc := fun q => if q = p then some v else s.loc q }
+
+/-- `set_global_*` (`OneTime::set(value, true)`) -/
+def PStore.setGlobal (s : PStore) (p : Param) (v : Nat) : PStore :=
+  { s with glob := fun q => if q = p then some v else s.glob q }
+
+/-- `init_global_*` (`OneTime::init`): `assert!(inner.is_none())` -/
+def PStore.initGlobal (s : PStore) (p : Param) (v : Nat) : Option PStore :=
+  match s.glob p with
+  | some _ => none
+  | none => some (s.setGlobal p v)
+
+/-- a fresh thread: no local value, the process-wide values stay -/
+def PStore.newThread (s : PStore) : PStore := { s with loc := fun _ => none }
+
+/-- `get_chain_type()`: panics (`none`) when neither is set -/
+def getChainType (s : PStore) : Option Nat × PStore :=
+  match s.loc .chainType with
+  | some v => (some v, s)
+  | none =>
+    match s.glob .chainType with
+    | none => (none, s)
+    | some g => (some g, s.setLocal .chainType g)
+
+/-- `get_accept_fee_base()` -/
+def getAcceptFeeBase (s : PStore) : Option Nat × PStore :=
+  match s.loc .feeBase with
+  | some v => (some v, s)
+  | none =>
+    let base := match s.glob .feeBase with
+      | some g => g
+      | none => DEFAULT_ACCEPT_FEE_BASE
+    (some base, s.setLocal .feeBase base)
+
+/-- `get_future_time_limit()` -/
+def getFutureTimeLimit (s : PStore) : Option Nat × PStore :=
+  match s.loc .ftl with
+  | some v => (some v, s)
+  | none =>
+    let ftl := match s.glob .ftl with
+      | some g => g
+      | none => DEFAULT_FUTURE_TIME_LIMIT
+    (some ftl, s.setLocal .ftl ftl)
+
+/-- `is_nrd_enabled()`: the default `false` is *not* cached -/
+def isNrdEnabled (s : PStore) : Option Nat × PStore :=
+  match s.loc .nrd with
+  | some v => (some v, s)
+  | none =>
+    match s.glob .nrd with
+    | some g => (some g, s.setLocal .nrd g)
+    | none => (some 0, s)
+
+/-- the getter of parameter `p` -/
+def PStore.get (s : PStore) : Param → Option Nat × PStore
+  | .chainType => getChainType s
+  | .feeBase => getAcceptFeeBase s
+  | .ftl => getFutureTimeLimit s
+  | .nrd => isNrdEnabled s
+
+/-- the default a getter falls back to (`none`: panic) -/
+def pDefault : Param → Option Nat
+  | .chainType => none
+  | .feeBase => some DEFAULT_ACCEPT_FEE_BASE
+  | .ftl => some DEFAULT_FUTURE_TIME_LIMIT
+  | .nrd => some 0
+
+/-- `local ?? global ?? default` -/
+def PStore.resolve (s : PStore) (p : Param) : Option Nat :=
+  match s.loc p with
+  | some v => some v
+  | none =>
+    match s.glob p with
+    | some g => some g
+    | none => pDefault p
+
+def ctOfNat : Nat → ChainType
+  | 0 => .mainnet | 1 => .testnet | 2 => .automatedTesting | _ => .userTesting
+
+/-- `global::coinbase_maturity` -/
+def coinbaseMaturity : ChainType → Nat
+  | .automatedTesting => AUTOMATED_TESTING_COINBASE_MATURITY
+  | .userTesting => USER_TESTING_COINBASE_MATURITY
+  | _ => COINBASE_MATURITY
+
+/-- a parameter derived from the chain type (`match get_chain_type() { … }`) -/
+def derived (f : ChainType → Nat) (s : PStore) : Option Nat × PStore :=
+  match getChainType s with
+  | (none, s') => (none, s')
+  | (some c, s') => (some (f (ctOfNat c)), s')
+
+/-- `Transaction::accept_fee() = self.weight() * global::get_accept_fee_base()` -/
+def acceptFee (weight : Nat) (s : PStore) : Option Nat × PStore :=
+  match getAcceptFeeBase s with
+  | (none, s') => (none, s')
+  | (some b, s') => (some (mulW weight b), s')
+
+/-- outcome of decoding an `UntrustedBlockHeader` on a thread with parameter store `s`:
+`Proof::read` asks `global::proofsize()` (chain type; panics when unset), then
+`get_future_time_limit()`, then the checks of `untrustedHeaderCheck` under the chain type. -/
+def untrustedHeaderRead (s : PStore) (now : Int) (sizeOk : Bool) (h : Hdr) :
+    Option (Except ReadErr Unit) × PStore :=
+  match getChainType s with
+  | (none, s1) => (none, s1)
+  | (some c, s1) =>
+    match getFutureTimeLimit s1 with
+    | (none, s2) => (none, s2)
+    | (some ftl, s2) => (some (untrustedHeaderCheck (ctOfNat c) now ftl sizeOk h), s2)
+
+/-- what a thread can do to the parameter store -/
+inductive POp
+  | get (p : Param) | setLocal (p : Param) (v : Nat) | setGlobal (p : Param) (v : Nat)
+  | initGlobal (p : Param) (v : Nat)
+  | maxBlockWeight | coinbaseMaturity | acceptFee (w : Nat)
+  | readHeader (now : Int) (sizeOk : Bool) (h : Hdr)
+
+/-- the parameter an operation may write directly (set / init), if any -/
+def POp.writes : POp → Option Param
+  | .setLocal p _ | .setGlobal p _ | .initGlobal p _ => some p
+  | _ => none
+
+def PStore.step (s : PStore) : POp → PStore
+  | .get p => (s.get p).2
+  | .setLocal p v => s.setLocal p v
+  | .setGlobal p v => s.setGlobal p v
+  | .initGlobal p v => (s.initGlobal p v).getD s
+  | .maxBlockWeight => (derived Cons.maxBlockWeight s).2
+  | .coinbaseMaturity => (derived Cons.coinbaseMaturity s).2
+  | .acceptFee w => (Cons.acceptFee w s).2
+  | .readHeader now ok h => (untrustedHeaderRead s now ok h).2
+
+def PStore.run (s : PStore) (ops : List POp) : PStore := ops.foldl PStore.step s
+
 end GV.Cons
